@@ -60,7 +60,16 @@ func txnProgram(j int, tx TxnSpec, uniq int) []string {
 	case "read":
 		s = append(s, sel(1, "")...)
 	case "inc":
-		s = append(s, fmt.Sprintf("UPDATE %s SET n = n + 1 WHERE id = %d;", t, tx.Key))
+		switch tx.Form {
+		case 1:
+			// the same increment through a join (every table of the FROM clause is loaded for update)
+			s = append(s, fmt.Sprintf("UPDATE x SET x.n = x.n + 1 FROM %s x JOIN one y ON y.k = 1 WHERE x.id = %d;", t, tx.Key))
+		case 2:
+			// ... and as a REPLACE that reads the table it writes
+			s = append(s, fmt.Sprintf("REPLACE INTO %s (id, n) USING (id) SELECT id, n + 1 FROM %s WHERE id = %d;", t, t, tx.Key))
+		default:
+			s = append(s, fmt.Sprintf("UPDATE %s SET n = n + 1 WHERE id = %d;", t, tx.Key))
+		}
 		s = append(s, sel(2, "")...)
 	case "selinc":
 		s = append(s, sel(1, "")...)
@@ -78,7 +87,11 @@ func txnProgram(j int, tx TxnSpec, uniq int) []string {
 		s = append(s, fmt.Sprintf("UPDATE %s SET n = n + 1 WHERE id = %d;", t, tx.Key))
 		s = append(s, sel(2, "")...)
 	case "ins":
-		s = append(s, fmt.Sprintf("INSERT INTO %s VALUES (%d, 0);", t, uniq))
+		if tx.Form == 1 {
+			s = append(s, fmt.Sprintf("INSERT INTO %s (id, n) SELECT %d, k - 1 FROM one;", t, uniq))
+		} else {
+			s = append(s, fmt.Sprintf("INSERT INTO %s VALUES (%d, 0);", t, uniq))
+		}
 		s = append(s, sel(2, "")...)
 	}
 	if tx.Commit {
@@ -193,6 +206,12 @@ func genCounterScenario(prop string, seed uint64, tier string, maxProcs int) (*S
 			tb := r.Intn(ntab)
 			tx := TxnSpec{Kind: kinds[r.Intn(len(kinds))], Table: tb, Key: r.Range(1, meta.Rows[tb]), Commit: r.Bool(0.85)}
 			if tx.Kind == "forupd" && r.Bool(0.4) {
+				tx.Form = 1
+			}
+			if tx.Kind == "inc" && r.Bool(0.3) {
+				tx.Form = r.Pick(1, 2)
+			}
+			if tx.Kind == "ins" && r.Bool(0.3) {
 				tx.Form = 1
 			}
 			txs = append(txs, tx)
